@@ -15,8 +15,8 @@
 From Coq Require Import List NArith Bool.
 From Mdns Require Import Bytes Rec ParamsRegistry Names WireOut Registry RegistryDaemon RegistrySpec
      RegistryTrace RegistryParamsPinned RegistryProofs RegistryDaemonProofs RegistryLiftProofs RegistryHistoryProofs
-     RegistrySilenceProofs RegistryLivenessProofs RegistryDeferralProofs RegistryTimingProofs RegistryWitnesses
-     RegistryWitnessProofs.
+     RegistrySilenceProofs RegistryLivenessProofs RegistryDeferralProofs RegistryTimingProofs RegistryPersistProofs
+     RegistrySafetyProofs RegistryWitnesses RegistryWitnessProofs.
 Import ListNotations.
 Open Scope N_scope.
 
@@ -366,15 +366,85 @@ Example C07_liveness_example :
   map (fun ks => s_status (snd ks)) (d_svcs (state_after w_exact_ifs w_exact_its 5)) = [[(2, SAnnounced)]].
 Proof. exact w_exact_liveness_shape. Qed.
 
+(* ---- round 10: SAFETY before T + 750 and the SECOND ANNOUNCEMENT, over calm histories ----------------------
+   More vocabulary (Proofs/RegistrySafetyProofs.v, RegistryPersistProofs.v):
+   Qp n T rg      = no rename recorded, probing names pairwise different, the probe for n is in progress with
+                    start_time T, and NOTHING is active under n;
+   KU s itf T st  = Kept (Qp (s_full s) T) on interface itf for the service, and the service's status on
+                    that interface is not Announced;
+   Qdone s itf v4 rg = no rename recorded, probing names pairwise different, every record of the service's
+                    announcement (SRV, TXT, addresses of family v4 on itf) is active.
+
+   NEVER SPEAKS BEFORE PROBED (safety, ANY schedule - late iterations included, so class 42 does not have to
+   be excluded here): through every history of calm iterations at times before T + 750, the probe of the
+   instance name stays in progress, nothing becomes active under that name and the service is NOT in the
+   state Announced on the interface ... *)
+Theorem C07_never_speaks_before_probed_partial : forall s0 itf T, s_probe s0 = true ->
+  forall its st, KU s0 itf T st -> Forall (calm_iter (lower (s_full s0))) its -> all_running st its ->
+  Forall (fun it => it_now it < T + 750) its -> KU s0 itf T (run_state st its).
+Proof. exact unannounced_before_T750. Qed.
+
+(* ... and in such a state the daemon cannot speak for the service on that interface: an announcement
+   attempt (registration, RegisterResend, completion of another probe) sends nothing and announces
+   nothing while the instance name has nothing active; questions are answered only for services whose
+   status there is Announced (the status test at the head of every answer function of handle_query;
+   C07_no_answer_unless_announced, C09_responses_only_for_registered_services_all_histories).
+   `_partial`: the second half is not restated as ONE theorem about the packets of the history (the
+   answer functions were not re-proved with "built from an ANNOUNCED service"); calm iterations only
+   (not widened to non-conflicting responses / unregister of other services); with the timetable
+   (C07_probe_timetable_partial) the three probe queries precede T + 750 on never-late schedules. *)
+Theorem C07_announcement_attempt_blocked_while_inactive : forall s0 T, s_probe s0 = true ->
+  forall s itf' rg now js, svc_eqv s0 s -> QP s0 T rg ->
+  snd (fst (fst (announce_both s itf' rg now js))) = [] /\ snd (fst (announce_both s itf' rg now js)) = false.
+Proof. exact blocked_for. Qed.
+
+(* THE ANNOUNCING ITERATION LEAVES THE RECORDS ACTIVE: in a never-late calm history that goes on until
+   T + 750, after the iteration at T + 750 the service is Announced AND its registry is in Qdone. *)
+Theorem C07_announcing_iteration_leaves_records_active_partial : forall s0 itf v4 T key,
+  key = lower (s_full s0) -> s_probe s0 = true -> addrs_on_intf s0 itf v4 <> [] ->
+  forall its st j, (j <= 3)%nat ->
+  NoDup (map if_index (d_intfs st)) -> Kept (Qj s0 itf v4 T j) (if_index itf) key s0 itf st ->
+  Forall (calm_iter key) its -> all_running st its -> never_late st its ->
+  (exists it, In it its /\ T + 750 <= it_now it) ->
+  exists pre it post, its = pre ++ it :: post /\ it_now it = T + 750 /\
+    Done (if_index itf) key (d_svcs (run_state st (pre ++ [it]))) /\
+    Kept (Qdone s0 itf v4) (if_index itf) key s0 itf (run_state st (pre ++ [it])) /\
+    NoDup (map if_index (d_intfs (run_state st (pre ++ [it])))).
+Proof. exact reaches_Qdone_gen. Qed.
+
+(* THE SECOND ANNOUNCEMENT IS SENT (the hypothesis `announceable` of C07_due_second_announcement_sent_partial
+   discharged for calm histories): from Kept Qdone - the service registered, its records active, no rename
+   recorded - with RegisterResend for the service queued for time t (the announcing pass queues it for
+   T + 750 + 1000: C07_probing_pass_announces_completed_service), through ANY calm history in which the
+   daemon keeps running (any schedule): the first iteration at or after t sends the announcement on the
+   interface.  Persistence in between: Kept Qdone is kept by every calm iteration. *)
+Theorem C07_second_announcement_sent_calm_partial : forall s0 itf v4 key t full,
+  key = lower (s_full s0) -> lower full = key -> addrs_on_intf s0 itf v4 <> [] ->
+  forall its st, Kept (Qdone s0 itf v4) (if_index itf) key s0 itf st -> In (t, RegisterResend full (if_index itf)) (d_retrans st) ->
+  Forall (calm_iter key) its -> all_running st its -> (exists it, In it its /\ t <= it_now it) ->
+  exists pre it post, its = pre ++ it :: post /\ Forall (fun x => it_now x < t) pre /\ t <= it_now it /\
+    In (OSend (if_index itf) v4 Mcast (announcement_of s0 itf reg_new v4)) (snd (fst (fst (iterate (run_state st pre) it)))).
+Proof. exact second_announcement_sent_calm. Qed.
+
+(* non-vacuity on w_exact: before T + 750 status Probing and nothing active; after the announcing iteration
+   SRV+TXT and the address record active, the repeat queued for T + 1750, and sent in that iteration *)
+Example C07_before_after_example :
+  map (fun kr => map fst (rg_active (snd kr))) (d_regs (state_after w_exact_ifs w_exact_its 4)) = [[]] /\
+  map (fun ks => s_status (snd ks)) (d_svcs (state_after w_exact_ifs w_exact_its 4)) = [[(2, SProbing)]] /\
+  map (fun kr => map (fun np => (fst np, length (snd np))) (rg_active (snd kr))) (d_regs (state_after w_exact_ifs w_exact_its 5))
+  = [[(n_inst, 2%nat); (n_host, 1%nat)]] /\
+  queue_times (state_after w_exact_ifs w_exact_its 5) = [1001895] /\
+  sends_announcement (outs_of w_exact_ifs w_exact_its 5) = true.
+Proof. exact w_exact_before_after. Qed.
+
 (* STILL NOT PROVED over histories of the daemon model:
-   (a) the safety form over ALL histories outside classes 42/44/48: "no response or announcement carries a
-       record built from a service on an interface where the owner name has not completed three probes";
-       what exists: the timetable above for calm never-late histories, the executed monitor (codes 32, 36),
-       the registry machine over all operation sequences;
-   (b) the bound with lost tie-breaks / conflicts (+ 1000 ms each);
-   (c) `announceable` at the due time of the second announcement derived from the history (it needs the
-       active records and the name changes of the interface to be carried on from Done; the hypothesis of
-       C07_due_second_announcement_sent_partial stays). *)
+   (a) the safety statement as ONE theorem about the packets, and over ALL histories outside classes
+       42/44/48 (with conflict datagrams, interface toggles, unregister);
+   (b) the widening of calm iterations to non-conflicting response datagrams and unregister / re-register
+       of other services;
+   (c) the bound with lost tie-breaks / conflicts (+ 1000 ms each).
+   For these the registry machine over all operation sequences and the executed monitor (codes 32, 36)
+   remain. *)
 
 (* History level, full statement (validated on every generated history by running chk_C07 on the
    model's own observation, NOT proved):
@@ -423,6 +493,11 @@ Print Assumptions C07_reaches_announced_partial.
 Print Assumptions C07_probe_timetable_partial.
 Print Assumptions C07_calm_iteration_step.
 Print Assumptions C07_liveness_example.
+Print Assumptions C07_never_speaks_before_probed_partial.
+Print Assumptions C07_announcement_attempt_blocked_while_inactive.
+Print Assumptions C07_announcing_iteration_leaves_records_active_partial.
+Print Assumptions C07_second_announcement_sent_calm_partial.
+Print Assumptions C07_before_after_example.
 Print Assumptions C07_three_probes_on_late_schedules_refuted.
 Print Assumptions C07_record_joining_a_probe_refuted.
 Print Assumptions C07_reprobe_after_host_rename.
